@@ -25,7 +25,7 @@ for pid in ids:
         })
 manifest = {
  "version": 1,
- "setup_cmd": "python3 harness/importgraph.py --regenerate && cd lean && lake build EoVerif driver && (lake build EoVerif.Props.C20 || true)",
+ "setup_cmd": "python3 harness/importgraph.py --regenerate && (python3 harness/py2lean.py > /dev/null || true) && cd lean && lake build EoVerif driver && (lake build EoVerif.Props.C20 || true) && (lake build EoVerif.Props.SrcNum EoVerif.Props.SrcHash EoVerif.Props.SrcSeq EoVerif.Props.SrcStr EoVerif.Props.SrcEnc || true)",
  "hooks": {
   "guard": "EOLIB_VERIF",
   "enable": "no source hooks are needed: the harness substitutes module attributes (random source, os.walk) from outside; nothing in /repo is guarded",
@@ -35,7 +35,7 @@ manifest = {
  },
  "engines": [{"name": "lean4-proof+correspondence", "path": "check",
               "serves_properties": sorted(CLAIMED),
-              "kind_free_text": "Lean 4 theorems about hand-written executable models (lake build + #print axioms audit), tied to /repo's working tree by a differential correspondence check through a compiled model driver; direct property oracle for failing-input search"}],
+              "kind_free_text": "Lean 4 theorems about hand-written executable models (lake build + #print axioms audit), tied to /repo's working tree by a differential correspondence check through a compiled model driver, and for the arithmetic/codec core by a source translator (harness/py2lean.py) whose output is proved equal to the models on every run; direct property oracle for failing-input search"}],
  "checks": checks,
  "notes": "See DESIGN.md. Every check first rebuilds the Lean project (all theorems kernel-checked), audits axioms, then runs the correspondence between the model driver and the code imported from /repo's working tree (VERIF_REPO overrides the path for mutant testing).",
  "not_applicable": [{"property_id": pid, "reason": NOT_YET} for pid in ids if pid not in CLAIMED],
